@@ -520,5 +520,6 @@ func init() {
 		Assumptions: []string{"real-time runs: no oracle depends on an interval shorter than the generous time-outs; a gate that is not reached is counted, not judged", "threads blocked on locks without hook points (activeUnitsLock) are recognised by a 60 ms quiet period"},
 		Run:         runC13,
 		CaseTimeout: 150 * time.Second,
+		NoFailFast:  true,
 	})
 }
